@@ -83,9 +83,13 @@ def _work(args):
     try:
         tu = _TU[family]
         cls = analyses()[kind]
-        ex = cls(tu, fname)
-        ex.run()
-        if hasattr(ex, "pointer_locals") and any(":loop-" in o.name for o in ex.obls) and not _all_proved(ex, timeout):
+        if kind == "T-USE":
+            from . import tuse
+            ex = tuse.houdini(tu, fname, timeout)
+        else:
+            ex = cls(tu, fname)
+            ex.run()
+        if kind != "T-USE" and hasattr(ex, "pointer_locals") and any(":loop-" in o.name for o in ex.obls) and not _all_proved(ex, timeout):
             # Houdini-style choice of the loop invariant: which pointer locals
             # may be pinned at a loop head (hand-over-hand descent).  The
             # strongest candidate under which every obligation discharges wins.
@@ -175,6 +179,11 @@ def verify(families, kinds, functions=None, tier="quick", jobs=16, skip=()):
         with _cf.ThreadPoolExecutor(max_workers=min(8, len(need))) as tp:
             for fam, tu in zip(need, tp.map(cast.load_tu, need)):
                 _TU[fam] = tu
+    if "T-USE" in kinds:
+        from . import tuse
+        for fam in families:
+            tuse._TUS[fam] = _TU[fam]
+            tuse.prepare(fam, jobs)
     for fam in families:
         tu = _TU[fam]
         for kind in kinds:
